@@ -224,14 +224,40 @@ def coq_event(ev):
 
 
 def eval_json(tag, imports, bodies, what):
-    """Run files of `Eval vm_compute in (...)` commands; every printed string is JSON."""
-    res = common.run_cases(tag, imports, bodies)
-    out = []
-    for ok, strs, log in res:
-        if not ok:
-            raise RuntimeError('coq evaluation of %s failed: %s' % (what, log[-1500:]))
-        out.append([json.loads(s) for s in strs])
-    return out
+    """Run files of `Eval vm_compute in (...)` commands; every printed string is JSON.
+    The results are written to files with `Redirect` and read back from there: run_cases
+    collects a process's standard output only after it has exited, so a shard printing
+    more than a pipe buffer (64 KB) would block until its timeout."""
+    outdir = tempfile.mkdtemp(prefix='c20out_')
+    try:
+        redirected, counts = [], []
+        for i, body in enumerate(bodies):
+            parts = body.split('Eval vm_compute in')
+            text = parts[0]
+            for k, rest in enumerate(parts[1:]):
+                text += 'Redirect "%s/f%d_%d" Eval vm_compute in' % (outdir, i, k) + rest
+            redirected.append(text)
+            counts.append(len(parts) - 1)
+        res = common.run_cases(tag, imports, redirected)
+        out = []
+        for i, (ok, strs, log) in enumerate(res):
+            if not ok:
+                lines = log.splitlines()
+                errs = [j for j, l in enumerate(lines) if 'Error' in l]
+                where = ('\n'.join(l[:400] for l in lines[max(0, errs[0] - 2):errs[0] + 6]) if errs
+                         else '(no error message: killed or timed out) ...' + log[-300:])
+                raise RuntimeError('coq evaluation of %s failed: %s' % (what, where))
+            vals = []
+            for k in range(counts[i]):
+                with open('%s/f%d_%d.out' % (outdir, i, k)) as f:
+                    got = common.parse_eval_strings(f.read())
+                if len(got) != 1:
+                    raise RuntimeError('coq evaluation of %s: unreadable result file' % what)
+                vals.append(json.loads(got[0]))
+            out.append(vals)
+        return out
+    finally:
+        shutil.rmtree(outdir, ignore_errors=True)
 
 
 def chunks(l, n):
@@ -832,7 +858,7 @@ def run(ctx):
     finally:
         shutil.rmtree(root, ignore_errors=True)
     with_model = bool(ctx.model_runnable)
-    bodies = coq_bodies(cases, with_model, 25)
+    bodies = coq_bodies(cases, with_model, 40)
     try:
         res = eval_json('c20run', IMPORTS_MODEL if with_model else IMPORTS_SPEC, bodies, 'spec_case/model_case')
     except RuntimeError as ex:
